@@ -83,7 +83,8 @@ def main(run):
             runs = runs // 3
             run.count("configs-with-interleaved-library-objects")
         for _ in range(runs):
-            st = GeometricReservoirStorage(size=kt(k), constant_probability=p, store_targets=False)
+            with_y = j % 2 == 1         # every other configuration stores targets: an observation is retained as a PAIR (x, y)
+            st = GeometricReservoirStorage(size=kt(k), constant_probability=p, store_targets=with_y)
             upd = st.update if _ % 2 else None        # every other execution: a bound method taken before the first update
             prev = None
             at = irnd.randrange(nmax) if interference and irnd.random() < 0.5 else -1
@@ -94,13 +95,17 @@ def main(run):
                 if interference and i % 9 == 7:
                     x = ("record", i)        # a non-dict record; whatever the storage does with it, the caller carries on
                 try:
-                    (upd or st.update)(x)
+                    (upd or st.update)(x, ("target", i)) if with_y else (upd or st.update)(x)
                 except Exception:
                     pass
                 if _ % 5 == 3 and i in (3, nmax // 2):      # checkpointing: the stream continues on a deep copy / pickle round trip
                     st = copy.deepcopy(st) if (i + _) % 2 else pickle.loads(pickle.dumps(st))
                     upd = st.update if upd is not None else None
                 cur = [(d["t"] if isinstance(d, dict) else d[1]) for d in st.get_data()[0]]
+                if with_y and [yy[1] for yy in st.get_data()[1]] != cur:
+                    fails.append(("replacement-shape", f"k={k} p={pe} store_targets=True: after update {i + 1} the stored targets {[yy[1] for yy in st.get_data()[1]]} "
+                                                       f"do not belong to the stored observations {cur}"))
+                    break
                 if i >= k and len(cur) != k:
                     fails.append(("replacement-shape", f"k={k} p={pe}: a full reservoir holds {len(cur)} items after update {i + 1}"))
                     break
